@@ -29,5 +29,6 @@ for rel, q in sorted(loader.LOOKUP_LOG):
         qq = '.'.join(parts[:k])
         if qq in m.functions:
             out.setdefault(rel, {})[qq] = dict(fingerprint(m.functions[qq].node))
+out['__all__'] = {rel: sorted(q for q in m.functions if '#' not in q) for rel, m in repo.modules.items()}
 ANCHORS_FILE.write_text(json.dumps(out, indent=0, sort_keys=True))
-print(f'{ANCHORS_FILE}: {sum(len(v) for v in out.values())} functions in {len(out)} modules')
+print(f'{ANCHORS_FILE}: {sum(len(v) for k, v in out.items() if k != "__all__")} fingerprints; {sum(len(v) for v in out["__all__"].values())} reference names')
